@@ -502,6 +502,16 @@ MUTANTS += [
                         return false;
                     }
                 }""")]),
+ dict(id="BENIGN-C04-get-mut-through-exclusive-arc", props=["C04", "C01", "C10"], benign=True,
+      edits=[(SWR, """                if let Some(peer_map) = Arc::get_mut(peer_map) {
+                    if peer_map.read().is_empty() {
+                        return false;
+                    }
+                }""", """                if let Some(peer_map) = Arc::get_mut(peer_map) {
+                    if peer_map.get_mut().is_empty() {
+                        return false;
+                    }
+                }""")]),
  dict(id="BENIGN-C04-announce-holds-shard-while-locking-torrent", props=["C04"], benign=True,
       edits=[(SWR, """        let peer_map = {
             let torrent_map_shard = self.get_shard(&request.info_hash).upgradable_read();
